@@ -14,7 +14,7 @@ import vcommon as vc
 
 warnings.filterwarnings('ignore')
 
-GEN_TARGETS = ()
+GEN_TARGETS = ('RootFind',)
 DRIVER_MAIN = 'Main/RootFind.lean'
 DRIVER_TARGETS = ['CopVerif.Driver.RootFind']
 ALWAYS_SEARCH = True
